@@ -31,7 +31,7 @@ ASSUMPTIONS = [
     "method left/right: j = clip(bisect_<side>(sorted labels, l), 0, n-1), written from the statement",
     "new labels are of the axis' kind (int/float interchangeable)",
 ]
-MANDATORY = ["new:float-for-int", "new:repeated", "new:repeated-missing", "new:empty", "new:missing", "new:permuted", "as:axis", "as:array", "fill:str", "fill:-1", "fill:nan-into-int",
+MANDATORY = ["like:raise_error", "like:raise_error-raised", "new:float-for-int", "new:repeated", "new:repeated-missing", "new:empty", "new:missing", "new:permuted", "as:axis", "as:array", "fill:str", "fill:-1", "fill:nan-into-int",
              "raise_error:raised", "method:left", "method:right", "source:shuf", "axis:not-first", "like", "identity"]
 
 
@@ -108,7 +108,7 @@ def like_case(draw):
     tdims = [tdims[i] for i in order]
     tlabels = [tlabels[i] for i in order]
     return {"mode": "like", "spec": spec, "tdims": tdims, "tlabels": tlabels, "t_as": draw(st.sampled_from(["dimarray", "axes"])),
-            "fill": draw(st.sampled_from(["nan", "nan", -1, 0]))}
+            "fill": draw(st.sampled_from(["nan", "nan", -1, 0])), "raise_error": draw(st.sampled_from([False, False, True]))}
 
 
 def strategy(tier):
@@ -261,11 +261,21 @@ def run_like(case):
             exp, missing = expected_reindex(exp, newlabels, i, new, fill, None)
             newlabels[i] = list(new)
             anymissing = anymissing or any(missing)
-    res = lib(lambda: a.reindex_like(t, **kw), what=what, sig=sig)
-    compare(res, dims, newlabels, exp, what, sig)
+    cl = ["like"]
+    if case.get("raise_error"):
+        # "applies the same rule to every shared dimension": raise_error=True raises as soon as one of them lacks a requested label
+        kw["raise_error"] = True
+        what += " raise_error=True"
+        cl.append("like:raise_error")
+    if case.get("raise_error") and anymissing:
+        core.must_raise(lambda: a.reindex_like(t, **kw), (IndexError,), what, sig=sig)
+        cl.append("like:raise_error-raised")
+    else:
+        res = lib(lambda: a.reindex_like(t, **kw), what=what, sig=sig)
+        compare(res, dims, newlabels, exp, what, sig)
     core.expect_unchanged(a, snap, what, sig)
     shared = [d for d in dims if d in case["tdims"]]
-    return {"classes": ["like", "like:shared-%d" % len(shared)], "nontrivial": bool(shared)}
+    return {"classes": cl + ["like:shared-%d" % len(shared)], "nontrivial": bool(shared)}
 
 
 def run_case(case):
